@@ -21,6 +21,7 @@ func TestMain(m *testing.M) {
 	vlib.Rule("C20: histories of 3-14 namespace operations (put/overwrite, update keeping/dropping/reordering old chunks through CreateEntry or UpdateEntry, " +
 		"manifest chunks incl. wrapping old chunks into a manifest and unwrapping, append, hard link by the mount's two-request protocol, rename of files and directories " +
 		"incl. onto existing names, delete with isDeleteData and isRecursive both ways and with the mount's counter rule) over 12 file paths in 4 directories under a per-case root, " +
+		"a quarter of the histories start from two link identities with two names each and then prefer linked names (renames of a name of one identity onto a name of the other, deletes of linked names); " +
 		"run through the gRPC handler methods of a FilerServer on a real Filer (leveldb2); every file id handed to DeleteChunks/DirectDeleteChunks is recorded. " +
 		"Non-trivial = a history in which, at the time of a step that deletes or drops chunks, some file id is shared: referenced by >=2 names (hard link), kept across an update that drops others, " +
 		"moved into or out of a manifest, or the step is a rename/overwrite onto an existing file. Distinct = distinct written-out history.")
@@ -36,14 +37,15 @@ var dirSuffixes = []string{"", "/x", "/x/y", "/z"}
 var fileNames = []string{"a", "b", "c"}
 
 type sim struct {
-	t      *rapid.T
-	fatalf func(format string, args ...interface{})
-	e      *fdrv.Env
-	root   string
-	seq    int
-	clock  int64
-	nodes  []*fdrv.Node
-	hist   []string
+	t           *rapid.T
+	fatalf      func(format string, args ...interface{})
+	e           *fdrv.Env
+	root        string
+	seq         int
+	clock       int64
+	nodes       []*fdrv.Node
+	hist        []string
+	focusLinked bool // the history started with two multi-name link identities: prefer linked names
 	// classification
 	shared                                                      bool
 	classes                                                     map[string]bool
@@ -92,6 +94,26 @@ func (s *sim) linkGroup(n *fdrv.Node) int {
 		}
 	}
 	return c
+}
+
+// linkedFiles returns the live hard-linked names.
+func (s *sim) linkedFiles() []*fdrv.Node {
+	var out []*fdrv.Node
+	for _, n := range s.nodes {
+		if isLinked(n) {
+			out = append(out, n)
+		}
+	}
+	return out
+}
+
+// identities returns the number of names per live hard link id.
+func (s *sim) identities() map[string]int {
+	m := map[string]int{}
+	for _, n := range s.linkedFiles() {
+		m[string(n.Found.HardLinkId)]++
+	}
+	return m
 }
 
 func isLinked(n *fdrv.Node) bool { return n != nil && n.Found != nil && len(n.Found.HardLinkId) != 0 }
@@ -275,6 +297,20 @@ func (s *sim) step(i int) stepResult {
 			return s.noop("rename-nothing")
 		}
 		src := rapid.SampledFrom(s.nodes).Draw(t, lbl+".src")
+		crossDst := ""
+		if linked := s.linkedFiles(); len(linked) > 0 && (s.focusLinked || len(s.identities()) >= 2) && rapid.Bool().Draw(t, lbl+".preferLinked") {
+			// a linked name, preferably moved onto a name of another link identity
+			src = rapid.SampledFrom(linked).Draw(t, lbl+".linkedSrc")
+			var others []string
+			for _, m := range linked {
+				if string(m.Found.HardLinkId) != string(src.Found.HardLinkId) {
+					others = append(others, m.Path)
+				}
+			}
+			if len(others) > 0 && rapid.IntRange(0, 2).Draw(t, lbl+".cross") > 0 {
+				crossDst = rapid.SampledFrom(others).Draw(t, lbl+".crossDst")
+			}
+		}
 		if vlib.Known("C20-rename-linked-name-unshares-identity") && s.subtreeHasLinked(src.Path) {
 			vlib.Excluded("C20-rename-linked-name-unshares-identity")
 			return s.noop("rename-linked(excluded)")
@@ -301,8 +337,17 @@ func (s *sim) step(i int) stepResult {
 		if len(dsts) == 0 {
 			return s.noop("rename-no-dst")
 		}
-		dst := rapid.SampledFrom(dsts).Draw(t, lbl+".dst")
+		dst := crossDst
+		if dst == "" {
+			dst = rapid.SampledFrom(dsts).Draw(t, lbl+".dst")
+		}
 		tgt := s.node(dst)
+		if !src.IsDir() && isLinked(src) && isLinked(tgt) && string(src.Found.HardLinkId) != string(tgt.Found.HardLinkId) {
+			s.classes["rename-linked-onto-other-identity"] = true
+			if s.linkGroup(src) >= 2 && s.linkGroup(tgt) >= 2 {
+				s.classes["rename-across-two-multiname-identities"] = true
+			}
+		}
 		if !src.IsDir() && isLinked(tgt) && s.linkGroup(tgt) > 1 && vlib.Known("C20-overwrite-linked-name-deletes-shared-chunks") {
 			vlib.Excluded("C20-overwrite-linked-name-deletes-shared-chunks")
 			return s.noop("rename-onto-linked(excluded)")
@@ -310,6 +355,10 @@ func (s *sim) step(i int) stepResult {
 		if src.IsDir() && tgt != nil && vlib.Known("C20-overwrite-linked-name-deletes-shared-chunks") && s.subtreeHasLinked(dst) {
 			vlib.Excluded("C20-overwrite-linked-name-deletes-shared-chunks")
 			return s.noop("rename-dir-onto-linked(excluded)")
+		}
+		if src.IsDir() && tgt != nil && s.subtreeHasLinked(src.Path) && vlib.Known("C20-dir-rename-merge-stale-hardlink-counter") {
+			vlib.Excluded("C20-dir-rename-merge-stale-hardlink-counter")
+			return s.noop("rename-dir-merge-with-linked(excluded)")
 		}
 		od, on := fdrv.SplitPath(src.Path)
 		nd, nn := fdrv.SplitPath(dst)
@@ -339,6 +388,9 @@ func (s *sim) step(i int) stepResult {
 			return s.noop("delete-nothing")
 		}
 		n := rapid.SampledFrom(s.nodes).Draw(t, lbl+".path")
+		if linked := s.linkedFiles(); len(linked) > 0 && s.focusLinked && rapid.Bool().Draw(t, lbl+".preferLinked") {
+			n = rapid.SampledFrom(linked).Draw(t, lbl+".linkedPath")
+		}
 		data := rapid.Bool().Draw(t, lbl+".data")
 		rec := rapid.Bool().Draw(t, lbl+".recursive")
 		ign := rapid.IntRange(0, 3).Draw(t, lbl+".ignoreRecErr") == 0
@@ -603,6 +655,8 @@ func (d *driver) finish(prefix string) {
 	sort.Strings(cl)
 	first := "plain-files"
 	switch {
+	case s.classes["rename-across-two-multiname-identities"]:
+		first = "rename-across-identities"
 	case s.classes["delete-while-hardlink-shared"]:
 		first = "hardlink-shared"
 	case s.classes["manifest-wrap-old-chunks"] || s.classes["manifest-unwrap"]:
@@ -627,8 +681,35 @@ func (d *driver) cleanup() {
 func runHistory(t *rapid.T) {
 	d := newDriver(t.Fatalf, t)
 	steps := rapid.IntRange(3, 14).Draw(t, "steps")
+	base := 0
+	if rapid.IntRange(0, 3).Draw(t, "twoIdentitiesPrologue") == 0 {
+		// start from two link identities with two names each (X={p0,p1}, Y={p2,p3})
+		// and prefer linked names afterwards: renames across identities, deletes of linked names
+		s := d.s
+		paths := rapid.Permutation(s.candidateFilePaths()).Draw(t, "prologue.paths")[:4]
+		for k := 0; k < 2; k++ {
+			p, q := paths[2*k], paths[2*k+1]
+			d.do(base, func() stepResult {
+				chunks := s.freshChunks(fmt.Sprintf("prologue%d.chunks", k), 0)
+				s.clock++
+				dir, name := fdrv.SplitPath(p)
+				err := s.e.Create(dir, &filer_pb.Entry{Name: name, Attributes: attrs(s.clock, uint64(endOf(chunks))), Chunks: chunks}, false)
+				return stepResult{desc: fmt.Sprintf("put %s [%s] -> %s", s.rel(p), s.e.FmtChunks(chunks), errStr(err)), requestsData: true}
+			})
+			base++
+			d.do(base, func() stepResult {
+				s.nLinkIds++
+				err := s.e.Link(p, q, fdrv.NewLinkId(s.seq, byte('A'+s.nLinkIds)))
+				s.classes["link"] = true
+				return stepResult{desc: fmt.Sprintf("link %s %s -> %s", s.rel(p), s.rel(q), errStr(err)), requestsData: true}
+			})
+			base++
+		}
+		s.focusLinked = true
+		s.classes["two-identities-prologue"] = true
+	}
 	for i := 0; i < steps; i++ {
-		i := i
+		i := base + i
 		d.do(i, func() stepResult { return d.s.step(i) })
 	}
 	d.finish("")
